@@ -13,8 +13,8 @@ import (
 type LoadStyle struct {
 	Choices    []int `json:"choices"`
 	CaseVar    bool  `json:"case"`
-	Blanks     bool  `json:"blanks"`   // extra blanks and tabs
-	CRLF       bool  `json:"crlf"`     // CR-LF line ends
+	Blanks     bool  `json:"blanks"` // extra blanks and tabs
+	CRLF       bool  `json:"crlf"`   // CR-LF line ends
 	BlankLines bool  `json:"blank_lines"`
 	Comments   bool  `json:"comments"` // comment lines and end-of-line comments
 	Meta       bool  `json:"meta"`     // ;name / ;author / ;strategy lines
